@@ -17,7 +17,7 @@ inline std::string match(const vh::Ctx &ctx, const rref::Rule &r, int64_t start,
 	// YEARLY;BYWEEKNO: weeks 1/52/53 and negative week numbers are taken within the calendar year instead of the ISO week-year, BYMONTH is not applied
 	if (ctx.excl("yearly_byweekno_edge") && r.freq == rref::YEARLY && !r.byweekno.empty()) {
 		bool edge = !r.bymonth.empty();
-		for (int w : r.byweekno) if (w < 0 || w == 1 || w >= 52) edge = true;
+		for (int w : r.byweekno) if (w == 1 || w >= 52 || w == -1 || w == -2 || w <= -52) edge = true;   // negative weeks in mid-year count from the right end correctly
 		if (edge) return "yearly_byweekno_edge";
 	}
 	// YEARLY;BYYEARDAY limited by BYDAY / BYMONTH
